@@ -356,6 +356,7 @@ func (acl *ACL) AuthorizeConnection(conn *net.Conn, cmd []string, command intern
 
 	var notAllowed []string
 
+	verifhook.Yield("acl.authorize.categories")
 	// 2. Check if all categories are in IncludedCategories
 	count := make(map[string]int, len(categories))
 	if !slices.Contains(connection.User.IncludedCategories, "*") {
@@ -386,6 +387,7 @@ func (acl *ACL) AuthorizeConnection(conn *net.Conn, cmd []string, command intern
 		return fmt.Errorf("unauthorized access to the following categories: %+v", notAllowed)
 	}
 
+	verifhook.Yield("acl.authorize.commands")
 	// 4. Check if commands are in IncludedCommands
 	if !slices.ContainsFunc(connection.User.IncludedCommands, func(includedCommand string) bool {
 		return includedCommand == "*" || includedCommand == comm
@@ -400,6 +402,7 @@ func (acl *ACL) AuthorizeConnection(conn *net.Conn, cmd []string, command intern
 		return fmt.Errorf("not authorised to run %s command", strings.ToUpper(comm))
 	}
 
+	verifhook.Yield("acl.authorize.keys")
 	// 6. PUBSUB authorisation.
 	if slices.Contains(categories, constants.PubSubCategory) {
 		// Loop through each of the channels accessed by this command
